@@ -174,6 +174,26 @@ Example C01_ref_ok_b_holds :
   end = true.
 Proof. exact (conj RefineExamples.ref_ok_b_example RefineExamples.ref_ok_b_history). Qed.
 
+(* The frame Grouper.Aggregate returns is a well-formed reference: every column of its result records the
+   position it has in the NEW header.  (An aggregated column used to keep the position of its source column in the
+   grouped frame; the by-name map of the result then pointed outside the new header or at another column.)
+   Concrete instance (Proofs/HeapRefine.v AggregateRefExamples): columns A, B; GroupBy() without key columns;
+   Aggregate(fn over B - position 1 -, as C): the result has the one column C, recorded at position 0 in header
+   and map, and satisfies ref_ok for every decoder. *)
+Example C01_aggregate_positions :
+  ref_ok_b AggregateRefExamples.st2 AggregateRefExamples.qf2 = true /\ c_pos AggregateRefExamples.cB2 = 1 /\
+  match fst (fst AggregateRefExamples.r2) with
+  | Ok q => ref_ok_b (snd AggregateRefExamples.r2) q = true
+            /\ map (fun c => (c_name c, c_pos c)) (hdr_of (snd AggregateRefExamples.r2) (q_cols q)) = [(AggExamples.nC, 0)]
+            /\ map (fun e => (fst e, c_pos (snd e))) (map_of (snd AggregateRefExamples.r2) (q_map q)) = [(AggExamples.nC, 0)]
+  | _ => False
+  end.
+Proof. exact AggregateRefExamples.aggregate_positions. Qed.
+Theorem C01_aggregate_result_ref_ok dec :
+  match fst (fst AggregateRefExamples.r2) with Ok q => ref_ok dec (snd AggregateRefExamples.r2) q | _ => False end.
+Proof. exact (AggregateRefExamples.aggregate_result_ref_ok dec). Qed.
+Print Assumptions C01_aggregate_result_ref_ok.
+
 Theorem C01_refines_slice dec st qf f a b :
   ref_ok dec st qf -> abs1 dec st qf = Some f ->
   exists qf', op_slice a b qf = Ok qf' /\ ref_ok dec st qf' /\ abs1 dec st qf' = Some (Ops.slice f a b).
